@@ -36,4 +36,36 @@ CHECKS = {
     },
 }
 
+def hist_check(cid, what, rule_extra, min_q, min_t):
+    return {
+        'level': 'exploration',
+        'rule': 'seeded transactional histories on a fresh single-table database (autocommit DML, sessions ending in commit / rollback / drop, '
+                'batches, failing statements' + rule_extra + ') mirrored into the reference model; after every step: statement outcome, the session\'s own view, '
+                'and a fresh reader\'s view of every table are compared with the model. Non-trivial = the history contains at least one transaction end, batch, '
+                'flush, vacuum or reopen; distinct = hash of the step list',
+        'legs': {'quick': [{'flavour': 'prod', 'shards': 16}], 'thorough': [{'flavour': 'prod', 'shards': 16}]},
+        'min_evaluations': {'quick': min_q, 'thorough': min_t},
+        'assumptions': EXPLORATION_ASSUMPTIONS + ['transactions overlap only as one writer plus fresh readers (writer/writer overlap is C04)'],
+        'technique': 'online reference-model monitor over seeded transactional histories (state-after-each-transaction oracle), plus known-finding witnesses',
+        'level_text': what,
+        'level_note': 'Histories stay inside the stability envelope of the unchanged tree (one table, a few dozen writes; shapes with an open finding are replayed as deterministic witnesses instead of being sampled).',
+    }
+
+
+CHECKS['C03'] = hist_check('C03', 'Each of ~2400 (quick) / 64000 (thorough) generated histories is executed against the real engine; after every rollback, session drop, failed statement '
+                           'and failed batch a fresh transaction must read exactly the state the committed transactions produce. Sampling of histories, exact comparison per step.', '', 1500, 40000)
+
+CHECKS['C07'] = hist_check('C07', 'Histories over a table with UNIQUE(k) and a NOT NULL column and a key domain of 5-6 values (collisions are the norm): every INSERT/DELETE is accepted or '
+                           'rejected exactly as the model decides (statement-level), and after every commit the committed contents equal the model (hence contain no duplicate key and no NULL in the NOT NULL column).',
+                           '; table shape (id, k, n TEXT NOT NULL, UNIQUE(k)), single-row inserts with colliding keys, deletes by key through a wrapped predicate', 1500, 40000)
+CHECKS['C07']['min_counters'] = {'quick': {'constraint_rejections_agreed': 500}, 'thorough': {'constraint_rejections_agreed': 5000}}
+CHECKS['C09'] = hist_check('C09', 'Histories with Database::flush() checkpoints and drop + Database::open(path, cfg) with four different open-time configurations at random points; after every reopen all '
+                           'tables must equal the model carried across, rolled-back rows must stay invisible, and work continues on the reopened database.',
+                           ', flush and close/reopen with varying configuration', 1000, 20000)
+CHECKS['C09']['min_counters'] = {'quick': {'steps.reopen': 200}, 'thorough': {'steps.reopen': 3000}}
+CHECKS['C13'] = hist_check('C13', 'Histories with Database::vacuum() at random points (after committed and rolled-back inserts, committed deletes, failed batches): every table read by a fresh transaction '
+                           'immediately after VACUUM, and after all later statements, must equal the model; the database must stay usable.',
+                           ' and VACUUM', 1000, 20000)
+CHECKS['C13']['min_counters'] = {'quick': {'steps.vacuum': 200}, 'thorough': {'steps.vacuum': 3000}}
+
 NOT_APPLICABLE = [{'property_id': c, 'reason': 'check not built yet in this session (work in progress, see DESIGN.md)'} for c in ALL if c not in CHECKS]
